@@ -4,7 +4,7 @@
 usage: eval_seed.py <worktree> <property id> [--all] [--tier quick|thorough] [--save NAME]
 
 1. the 192 pinned tests pass in the worktree with the change,
-2. the demonstration fails with the change and passes without it (git stash),
+2. the demonstration fails with the change and passes without it (patch reverse-applied),
 3. our check(s) are run with VERIF_REPO=<worktree>: exit 1 expected for the target property.
 With --save the patch, the demonstration and meta.json are written to /verif/seeded/<NAME>/.
 """
@@ -39,14 +39,19 @@ if not diff.strip():
     print('no uncommitted change in', wt)
     sys.exit(2)
 rc, out = sh('/venv/bin/python -m pytest -q -p no:cacheprovider --timeout=900 2>&1 | tail -3', cwd=wt)
+patch_file = '/tmp/scratch/eval_seed_%s_%d.diff' % (prop, os.getpid())
+with open(patch_file, 'w') as f:
+    f.write(diff)
 meta['pinned_tests'] = out.strip().splitlines()[-1] if out.strip() else ''
 print('tests:', meta['pinned_tests'])
 demo = 'demo_%s.py' % prop
 env = dict(os.environ, PYTHONPATH=wt)
 rc_with, out_with = sh('/venv/bin/python -W ignore %s' % demo, cwd=wt, env=env)
-sh('git stash', cwd=wt)
+# the stash stack is shared by all worktrees of /repo: reverse-apply the patch instead of stashing
+assert sh('git apply -R %s' % patch_file, cwd=wt)[0] == 0
 rc_without, out_without = sh('/venv/bin/python -W ignore %s' % demo, cwd=wt, env=env)
-sh('git stash pop', cwd=wt)
+assert sh('git apply %s' % patch_file, cwd=wt)[0] == 0
+os.unlink(patch_file)
 meta['demo_with_change_exit'] = rc_with
 meta['demo_without_change_exit'] = rc_without
 print('demo: with change exit=%d, without exit=%d' % (rc_with, rc_without))
